@@ -1,12 +1,21 @@
 #!/usr/bin/env python3
 """C18 streams: B1 tours of MC_Stream + B2 random stream programmes (TraceKs.tla)."""
-import common, ks
+import common, ks, sched
 tier = common.tier_arg()
+
+
+def concurrent_adds(v, cov, tier, seed):
+    """IDs stay strictly increasing and nothing added is lost when XADDs (explicit ids, MAXLEN, NOMKSTREAM), DEL and XRANGE
+    on one stream interleave: every schedule with <= 2 preemptions (spec/Sched.tla) replayed on the real code."""
+    sr = sched.run("stream", "thorough", seed, maxpre=2 if tier == "quick" else 3, maxpre3=1 if tier == "quick" else 2)
+    sched.decide(sr, v, "C18", cov)
+
+
 LABELS = ('xadd', 'xrange')
 ks.family_check(
     "C18", tier,
     b1_instances=[('MC_Stream', 'MC_Stream.cfg')] if tier == "quick" else [('MC_Stream', 'MC_Stream_thorough.cfg')],
     b2_families=['stream'],
     level_text="", assumptions=['reference semantics = Redis command reference as transcribed in spec/KsStream.tla', 'auto IDs (*) are checked relationally in B2 (greater than the last ID), explicit and ms-* IDs exactly', "'~' trimming may keep any suffix between the exact trim and no trim"],
-    b2_progs=400 if tier == "quick" else 6000,
+    b2_progs=400 if tier == "quick" else 6000, extra=concurrent_adds,
     label_filter=lambda b: b.split(".")[0] in LABELS)
